@@ -313,6 +313,19 @@ func (dm *DMap) putOnCluster(e *env) error {
 		}
 	}
 
+	if e.putConfig.OnlyUpdateTTL {
+		// Only the expiry changes. The backups receive the whole entry, so it has
+		// to carry the stored value instead of an empty one.
+		current, err := f.storage.Get(e.hkey)
+		if errors.Is(err, storage.ErrKeyNotFound) {
+			return ErrKeyNotFound
+		}
+		if err != nil {
+			return err
+		}
+		e.value = current.Value()
+	}
+
 	nt := dm.prepareEntry(e)
 	if dm.s.config.ReplicaCount > config.MinimumReplicaCount {
 		switch dm.s.config.ReplicationMode {
